@@ -129,7 +129,8 @@ Definition known (sch : aschema) (t : string) : Prop := lookup t (s_types sch) <
 
 Record wf_doc (sch : aschema) (frags : list fragdef) : Prop := {
   wf_frag_types : forall fd, In fd frags -> known sch (fr_on fd);
-  wf_ifaces : forall t i, lookup t (s_types sch) = Some (KObj i) -> forall x, In x i -> known sch x
+  wf_ifaces : forall t i, lookup t (s_types sch) = Some (KObj i) \/ lookup t (s_types sch) = Some (KIface i) ->
+                          forall x, In x i -> known sch x
 }.
 
 Lemma find_frag_In n frags fd : find_frag n frags = Some fd -> In fd frags.
@@ -176,9 +177,10 @@ Proof.
       - rewrite inline_root_tr. destruct (inline_root sch tc root) as [rt|] eqn:Ei.
         + assert (Hkr : known sch rt).
           { unfold inline_root in Ei. destruct (lookup root (s_types sch)) as [k|] eqn:Er; [|discriminate].
-            destruct (match k with KObj i => mem tc i | _ => false end) eqn:Em.
-            - inversion Ei; subst. destruct k as [i| | |]; try discriminate.
-              eapply (wf_ifaces _ _ Hwf); [exact Er | apply mem_In; exact Em].
+            destruct (match k with KObj i | KIface i => mem tc i | _ => false end) eqn:Em.
+            - inversion Ei; subst. destruct k as [i|i| |]; try discriminate.
+              + eapply (wf_ifaces _ _ Hwf); [left; exact Er | apply mem_In; exact Em].
+              + eapply (wf_ifaces _ _ Hwf); [right; exact Er | apply mem_In; exact Em].
             - destruct (String.eqb tc root); [|discriminate]. inversion Ei; subst. exact Hk. }
           destruct (IH _ _ _ _ _ _ _ E1 Hkr F0 HF0) as [q Hq]. rewrite Hq. simpl. eexists; reflexivity.
         + inversion E1; subst. eexists; reflexivity. }
